@@ -535,6 +535,7 @@ PROFILES = {
     3: (45, 20, 35),   # fold heavy
     4: (60, 30, 10),   # dealer explicit (more explicit args)
     5: (80, 20, 0),    # never folds: multi-way showdowns
+    6: (96, 4, 0),     # check-down: multi-way showdowns with chips behind
 }
 
 
@@ -677,9 +678,10 @@ class Interp:
         if kind == 'burn_card':
             a = t.next()
             m = a % 4
-            if m == 0 or m == 3:
+            heavy = self.cfg.get('unknown') == 'heavy'
+            if (m == 0 or m == 3) and not (heavy and m == 3):
                 return ()
-            if m == 2 and self.cfg.get('unknown'):
+            if (m == 2 or heavy) and self.cfg.get('unknown'):
                 return ('??',)
             dealable = list(s.get_dealable_cards(1))
             return (self._pick(dealable, a // 4),)
@@ -716,6 +718,8 @@ class Interp:
         s = self.state
         a = self.tape.next()
         m = a % 6
+        if m == 5 and self.cfg.get('unknown') == 'heavy':
+            m = 4
         if m == 0 or m == 5:
             return ()
         pend = self._pending_hole()
@@ -752,7 +756,8 @@ class Interp:
             return None
         out = []
         for j in range(k):
-            if down and self.cfg.get('unknown') and (v >> (3 * j)) % 5 == 0:
+            if down and self.cfg.get('unknown') and (v >> (3 * j)) % (
+                    3 if self.cfg['unknown'] == 'heavy' else 5) == 0:
                 # only face-down hole cards may be unknown (what a hand
                 # history leaves out); up cards and boards stay known
                 out.append(Card.UNKNOWN)
@@ -891,6 +896,12 @@ class Interp:
         unknown = not cards_known(hole)
         m = a % 6
         if self.cfg.get('auto_show') and not unknown:
+            if self.cfg['auto_show'] == 'any_order' and a % 3:
+                # the engine still decides, but for a tape-chosen player
+                # among those still to show (out of turn)
+                pend = list(s.showdown_indices)
+                if pend:
+                    return (None, self._pick(pend, a // 3))
             return ()
         if unknown:
             # the hand must be made known (or mucked): C07's stated domain
@@ -898,6 +909,13 @@ class Interp:
                 return (False,)
             k = sum(1 for c in hole if not c)
             dealable = [c for c in s.get_dealable_cards(k)]
+            if len(dealable) < k:
+                # more placeholders around than real cards left (full stud
+                # table recorded with many unseen cards): the hand cannot be
+                # made known - muck it, or leave the stated domain
+                if self.muck_allowed():
+                    return (False,)
+                raise Discard('not enough real cards to table the hand')
             cards = []
             v = a // 6
             for c in hole:
@@ -915,7 +933,11 @@ class Interp:
             j = self._pick(pend, a // 6)
             hj = tuple(s.hole_cards[j])
             if cards_known(hj):
-                return (hj if (a // 6) % 2 else True, j)
+                sub = (a // 6) % 4
+                if sub == 3:
+                    # the engine decides for a player acting out of turn
+                    return (None, j)
+                return (hj if sub % 2 else True, j)
             return ()
         if m == 1:
             return (True,)
@@ -1014,6 +1036,9 @@ def _run_case(case, cfg, res, hooks, observers, mask, max_steps):
                 res.outcome = it.run(max_steps)
             except HarnessError:
                 raise
+            except Discard as e:
+                res.exc = e
+                res.outcome = 'discard'
             except Runaway as e:
                 res.exc = e
                 res.outcome = 'runaway'
